@@ -57,9 +57,10 @@ def sensitive_trees():
     out.append(doc([E("div", a=[A("title", "'")]), E("div", a=[A("title", '"')]), E("div", a=[A("title", "\"'")]), E("div", a=[A("title", "=")]),
                     E("div", a=[A("title", "<")]), E("div", a=[A("title", ">")]), E("div", a=[A("title", "`")]), E("div", a=[A("title", "&")]),
                     E("div", a=[A("title", "é")]), E("div", a=[A("title", "\U0001f600")]), E("div", a=[A("title", ""), A("class", "a b"), A("id", "i")])]))
-    out.append(doc([E("svg", E("g", E("title", T("t<")), E("foreignObject", E("p", T("x")), E("div"))), E("a", a=[("xlink", "href", "#x")], ns="svg"),
+    out.append(doc([E("svg", E("g", E("title", T("t<"), ns="svg"), E("foreignObject", E("p", T("x")), E("div"), ns="svg"), ns="svg"),
+                      E("a", a=[("xlink", "href", "#x")], ns="svg"),
                       ns="svg", a=[A("viewBox", "0 0 1 1"), A("width", "1")]),
-                    E("math", E("mi", T("x")), E("annotation-xml", E("p", T("y")), ns="math", a=[A("encoding", "text/html")]), ns="math")]))
+                    E("math", E("mi", T("x"), ns="math"), E("annotation-xml", E("p", T("y")), ns="math", a=[A("encoding", "text/html")]), ns="math")]))
     out.append(doc([E("img", a=[A("src", "a"), A("alt", "")]), E("hr"), E("br"), E("input", a=[A("type", "hidden"), A("hidden", "hidden")]),
                     E("p", E("img", a=[A("alt", "x/")]))]))
     d = doc([T(" "), C("c"), E("p", T("x")), C("d")], head_kids=[T("\n"), C("h"), E("title", T("t")), T("\n")], doctype=("", "about:legacy-compat"),
@@ -259,6 +260,8 @@ class Judge(object):
         ctx = self.ctx
         st = self.stats
         src = res.get("src") or "generated"
+        if skip and src == "hand-built":
+            raise tlc.TLCError("a hand-built option-sensitive tree is outside the modelled class (%s): fix harness/props/c07.py" % skip)
         bs = self.by_src.setdefault(src, {"trees": 0, "skipped_nonconforming": 0, "skipped_not_fixpoint": 0})
         bs["trees"] += 1
         if skip:
@@ -316,8 +319,10 @@ def wide_trees(ctx, n_random, n_corpus, n_conform):
         jobs.append({"tree": cmgen.random_tree(ctx.rng), "gen": False, "full": False, "src": "random"})
     docs = []
     for _ in range(n_conform):
-        docs.append(conform.conforming(ctx.rng)[0])
-    rs = [s for s in corpus.repo_strings(300) if len(s) <= 200]
+        d = conform.conforming(ctx.rng)[0]
+        if len(d) <= 260:
+            docs.append(d)
+    rs = [s for s in corpus.repo_strings(300) if len(s) <= 140]
     ctx.rng.shuffle(rs)
     for s in rs[:n_corpus]:
         docs.append(s if s.lower().startswith("<!doctype") else "<!DOCTYPE html>" + s)
@@ -340,7 +345,7 @@ def run(ctx):
     extra, less, textlen = (0, 1, 2) if qk else (0, 0, 3)
     per_tree = 1 if qk else 2
     frac = 0.35 if qk else 0.5
-    cap_full = 120 if qk else 400
+    cap_full = 60 if qk else 300
     full_mod = 3000 if qk else 3000
     _G.update(full=rt.full_product(), pairwise=rt.pairwise(random.Random(ctx.seed)), listed=set(listed), workers=workers)
     ctx.constants = {"themes": THEMES, "bound": "Bound(theme) + %d - %d added nodes" % (extra, less), "TextLen": textlen,
@@ -389,7 +394,7 @@ def run(ctx):
     judge.flush()
     gen_stats = dict(judge.stats)
     # ---- 3. code -> spec on wider inputs ----
-    jobs = wide_trees(ctx, 400 if qk else 6000, 300 if qk else 3000, 150 if qk else 2000)
+    jobs = wide_trees(ctx, 250 if qk else 5000, 200 if qk else 3000, 150 if qk else 3000)
     for batch in core.batched(jobs, 2000):
         for res in core.parallel(_tree_job, batch, chunk=50):
             judge.add(res)
